@@ -8,6 +8,9 @@ TECH = "deterministic simulation: seeded scheduler / choice stream + fault injec
 
 # id -> (category, text, note)
 CLAIMED = {
+    "C01": ("exploration",
+            "Seeded histories (1-40 operations, thorough up to 200) over the 16 Filespace methods plus buffer-mutation pseudo-operations on the memfs root and child views, paths in random spellings; refinement against ModelTree step by step: result class, then the whole tree walked through the public interface, queries in several spellings through every view, and every earlier returned slice/listing (snapshot clause). Single task, fault-free configuration of the simulator.",
+            "Sampling of histories; unspecified cases (listed in the evidence assumptions) are accepted either way and cut the history when the resulting state is not defined by the statement."),
     "C08": ("exploration",
             "Seeded search over schedules of the real fsloop producers, consumers and completion goroutine (all locks, wait groups, channel operations and a random subset of statement boundaries are scheduling points), over tree shapes, filters, limits, queue capacities, latencies and one injected listing/callback error; oracle: exactly-once multiset against a model walk, concurrency bound, wait-after-last-callback, termination under a fair tail.",
             "Sampling, not enumeration. Trusted: simrt primitives model sync faithfully; preemption granularity is the statement, not the instruction."),
@@ -27,7 +30,7 @@ NOT_APPLICABLE = {
     "C18": "pure script builder whose observable is the external /bin/sh; nothing the simulator schedules or can inject faults into (DESIGN.md section 5)",
 }
 
-FIX_COMMITS = "Fix commits in /repo: 2eb41fe (C08 lost item), fc1fcca (C12 double close of done channel), 21d0376 (C12 negative wait group counter)."
+FIX_COMMITS = "Fix commits in /repo are listed with their property in known_findings.json (status fixed)."
 
 
 def main():
